@@ -592,6 +592,13 @@ def store_subscript(I, base, k, v, node=None):
         return
     if isinstance(base, LList):
         i = norm_index(I, k, I.llist_len(base), node)
+        from .sym import concrete_int as _ci
+
+        if _ci(simp(i)) is None:
+            base.sym_writes.append((simp(i), v))
+            return
+        if base.sym_writes:
+            raise Unsupported("store into a lazy list after a store at a symbolic index")
         ci = c.concretize(i, what="index")
         base.cells[ci] = v
         return
